@@ -281,6 +281,9 @@ func verifC29Gen(rt *rapid.T, stopBias bool) verifC29Params {
 	stopRoll := rapid.IntRange(0, 9).Draw(rt, "stopRoll")
 	if (stopBias && stopRoll < 8) || (!stopBias && !clean && stopRoll < 2) {
 		p.StopAt = rapid.IntRange(0, totalCalls).Draw(rt, "stopAt")
+		if stopBias && totalCalls > 1 {
+			p.StopAt = rapid.IntRange(1, totalCalls-1).Draw(rt, "stopAtMid")
+		}
 		p.StopShort = rapid.IntRange(0, 2).Draw(rt, "stopShort") > 0
 	}
 	return p
@@ -603,6 +606,8 @@ type verifC29StopRecord struct {
 	Err        string `json:"err,omitempty"`
 	// measured at the instant the early Stop returned
 	AppendBlockedAtReturn bool `json:"append_blocked_at_return"`
+	// futures admitted (SubmitLocal had returned them) but not resolved at the instant a Stop returned nil
+	UnresolvedAtNil int `json:"unresolved_at_nil"`
 }
 
 type verifC29History struct {
@@ -751,6 +756,27 @@ func verifC29Run(p verifC29Params, blockAppends bool) *verifC29History {
 	defer cancelCase()
 
 	var histMu sync.Mutex
+	var futs []*Future
+	unresolved := func() int {
+		histMu.Lock()
+		list := append([]*Future(nil), futs...)
+		histMu.Unlock()
+		n := 0
+		for _, f := range list {
+			select {
+			case <-f.done:
+			default:
+				n++
+			}
+		}
+		return n
+	}
+	stopAt := p.StopAt
+	if st.blockGate != nil && len(p.Callers) > 0 {
+		// with blocked appends only the first call of every caller is certain to start
+		stopAt = p.StopAt % len(p.Callers)
+		h.Params.StopAt = stopAt
+	}
 	var callCounter atomic.Int64
 	var stopOnce sync.Once
 	var wg sync.WaitGroup
@@ -760,6 +786,12 @@ func verifC29Run(p verifC29Params, blockAppends bool) *verifC29History {
 			var ctx context.Context
 			var cancel context.CancelFunc
 			if p.StopShort {
+				if st.blockGate != nil && stopAt > 0 {
+					// scheduling aid only: give already started calls a moment to reach the (blocked) Appender
+					for i := 0; i < 300 && st.inflight.Load() == 0; i++ {
+						time.Sleep(100 * time.Microsecond)
+					}
+				}
 				ctx, cancel = context.WithDeadline(context.Background(), time.Now().Add(-time.Second))
 			} else {
 				ctx, cancel = context.WithTimeout(caseCtx, verifC29WaitTimeout())
@@ -770,6 +802,9 @@ func verifC29Run(p verifC29Params, blockAppends bool) *verifC29History {
 			}
 			err := g.Stop(ctx)
 			cancel()
+			if err == nil {
+				rec.UnresolvedAtNil = unresolved()
+			}
 			rec.AppendBlockedAtReturn = st.blockGate != nil && p.StopShort && st.inflight.Load() > 0
 			rec.ReturnTick = clock.Add(1)
 			if err != nil {
@@ -787,7 +822,7 @@ func verifC29Run(p verifC29Params, blockAppends bool) *verifC29History {
 		go func(ci int) {
 			defer wg.Done()
 			for cj, call := range p.Callers[ci].Calls {
-				if int(callCounter.Add(1)-1) == p.StopAt {
+				if int(callCounter.Add(1)-1) == stopAt {
 					earlyStop()
 				}
 				verifC29Sleep(call.PauseUS)
@@ -822,6 +857,11 @@ func verifC29Run(p verifC29Params, blockAppends bool) *verifC29History {
 						rec.SubmitCls = verifC29ErrClass(err)
 					}
 					rec.future = f
+					if f != nil {
+						histMu.Lock()
+						futs = append(futs, f)
+						histMu.Unlock()
+					}
 					recs[si] = rec
 				}
 				for _, rec := range recs {
@@ -897,6 +937,8 @@ func verifC29Run(p verifC29Params, blockAppends bool) *verifC29History {
 	frec := verifC29StopRecord{BeginTick: finalBegin, ReturnTick: clock.Add(1)}
 	if err != nil {
 		frec.Err = err.Error()
+	} else {
+		frec.UnresolvedAtNil = unresolved()
 	}
 	h.Stops = append(h.Stops, frec)
 
